@@ -15,7 +15,7 @@ import time
 
 from . import common as C
 
-DRV = os.path.join(C.LEAN, '.lake/build/bin/ymdriver')
+DRV = os.environ.get('VERIF_PIPE_DRV') or os.path.join(C.LEAN, '.lake/build/bin/ymdriver')  # (override: development only)
 CORPUS = os.path.join(C.VERIF, 'corpus', 'pipe')
 
 D10_KEY = 'inner task with a Run-type head returned from a continuation'
